@@ -28,7 +28,7 @@ def base_sheet():
 
 def gen_case(rng):
     n = rng.choice([4, 4, 8, 12, 24, 48, 96])
-    minutes = rng.choice([5, 10, 15, 15, 30, 60])
+    minutes = rng.choice([5, 10, 15, 15, 30, 60, 45, 40, 25])
     cc = rng.choice(CC)
     scale = rng.choice([0.05, 1, 10, 100, 1000, 3000])
     kind = rng.choice(["flat", "peaky", "rand", "zero", "boundary", "exact"])
